@@ -501,6 +501,27 @@ static void run_case(const Args& a, long i, const std::string& dir, Out& o) {
         if (!same) { std::string gotl; for (size_t q = 0; q < rt.size() && q < 40; q++) gotl += std::to_string(rt[q]) + " "; c.viol("reader:cell_types", "get_cell_types returns " + std::to_string(rt.size()) + " entries [" + gotl + "] for " + std::to_string(ncells) + " cells"); }
         o.bin("oracle_reader_cell_types");
     }
+    // ---- (b2) another tissue written to the SAME path (same counts, every x coordinate moved beyond the old range) and read in the same process:
+    //      the reader must return what the file holds now
+    if (c.v != "viol" && a.geti("rewrite", 1) != 0) {
+        std::string text; { FILE* f = fopen(cell_path.c_str(), "rb"); if (f) { char buf[65536]; size_t r; while ((r = fread(buf, 1, sizeof buf, f)) > 0) text.append(buf, r); fclose(f); } }
+        size_t p0 = text.find("POINTS "); long npts = p0 == std::string::npos ? 0 : atol(text.c_str() + p0 + 7); size_t q0 = p0 == std::string::npos ? std::string::npos : text.find('\n', p0);
+        if (npts > 0 && q0 != std::string::npos) {
+            double xmin = 1e300, xmax = -1e300; std::vector<std::pair<size_t, size_t>> span; std::vector<double> val; const char* base = text.c_str(); const char* cur = base + q0 + 1;
+            for (long k = 0; k < 3 * npts; k++) { char* end = nullptr; while (*cur == ' ' || *cur == '\n' || *cur == '\t' || *cur == '\r') cur++; double d = strtod(cur, &end); if (end == cur) break; span.push_back({(size_t)(cur - base), (size_t)(end - base)}); val.push_back(d); if (k % 3 == 0 && std::isfinite(d)) { xmin = std::min(xmin, d); xmax = std::max(xmax, d); } cur = end; }
+            if ((long)val.size() == 3 * npts && xmax >= xmin && std::isfinite(xmax - xmin) && std::fabs(xmax) < 1e290) {
+                const double shift = 2 * (xmax - xmin) + std::max(std::fabs(xmax), std::fabs(xmin)) * 1e-3 + 1e-300; std::string nt; size_t last = 0;
+                for (size_t k = 0; k < val.size(); k++) { nt.append(text, last, span[k].first - last); if (k % 3 == 0) { char b[40]; snprintf(b, sizeof b, "%.17g", val[k] + shift); nt += b; } else nt.append(text, span[k].first, span[k].second - span[k].first); last = span[k].second; }
+                nt.append(text, last, std::string::npos);
+                { FILE* f = fopen(cell_path.c_str(), "wb"); if (f) { fwrite(nt.data(), 1, nt.size(), f); fclose(f); } }
+                std::vector<mesh> rm2; bool ok2 = true; try { mesh_reader rd2(cell_path, false); rm2 = rd2.read(); } catch (const std::exception&) { ok2 = false; }
+                o.bin("oracle_same_path_rewritten");
+                if (!ok2) c.viol("reader:rewritten_file_rejected", "the same file with every x coordinate shifted is rejected by the reader");
+                else { long stale = 0, total = 0; for (auto& m : rm2) for (size_t q = 0; q + 2 < m.node_pos_lst.size(); q += 3) { total++; if (m.node_pos_lst[q] <= xmax + 0.25 * shift) stale++; }
+                    if (stale) c.viol("reader:stale_coordinates_after_rewrite", std::to_string(stale) + " of " + std::to_string(total) + " nodes returned by the reader carry an x coordinate of the file that was at this path before (the file now holds x + " + std::to_string(shift) + ")"); }
+            }
+        }
+    }
     // ---- (c) solver output as input of another run
     if (route == 0 && regime == 0 && c.v != "viol") {
         global_simulation_parameters sp; sp.output_folder_path_ = dir; sp.input_mesh_path_ = cell_path; sp.perform_initial_triangulation_ = false; sp.enable_edge_swap_operation_ = true;
